@@ -38,6 +38,9 @@ type answer struct {
 	sigBad      map[string]string // event ID -> signature fault kind
 	faults      map[string]string // event ID -> last fault kind (for signatures of violations)
 	nfaults     int
+	// splitSig: event IDs listed in both lists of which only one copy has a
+	// damaged signature; whether the intact copy survives is not prescribed
+	splitSig map[string]string
 }
 
 type c14 struct {
@@ -138,7 +141,7 @@ func (c *c14) pickMissingBehaviour(id string) {
 	c.r.Logf("  provider script: %s -> %s", shortID(id), pvNames[b])
 }
 
-var stateFaultKinds = []string{"sig_corrupt", "sig_strip", "sig_wrong_key", "auth_fail", "missing_auth", "wrong_room", "non_state", "dup_key", "malformed", "dup_listing"}
+var stateFaultKinds = []string{"sig_corrupt", "sig_strip", "sig_wrong_key", "auth_fail", "missing_auth", "wrong_room", "non_state", "dup_key", "malformed", "dup_listing", "sig_one_copy"}
 
 // applyFaults gives a tape-chosen subset of the answer's events one fault each.
 func (c *c14) applyFaults(a *answer, allowStructural bool) {
@@ -162,7 +165,7 @@ func (c *c14) applyFaults(a *answer, allowStructural bool) {
 		return sim.Pick(t, cands)
 	}
 	for i := 0; i < k; i++ {
-		w := []int{3, 2, 2, 4, 4, 1, 1, 1, 2, 1}
+		w := []int{3, 2, 2, 4, 4, 1, 1, 1, 2, 1, 1}
 		if !allowStructural {
 			w[6], w[7] = 0, 0
 		}
@@ -185,6 +188,53 @@ func (c *c14) applyFaults(a *answer, allowStructural bool) {
 			touched[v.EventID()] = true
 			c.pickMissingBehaviour(v.EventID())
 			c.r.Logf("  fault %s on %s", kind, c.desc(v.EventID()))
+		case "sig_one_copy":
+			// an event listed among the auth events and in the state: the
+			// signature of one of the two copies is damaged, the other is intact
+			inAuth := map[string]bool{}
+			for _, e := range a.auth {
+				if e.ev != nil {
+					inAuth[e.id()] = true
+				}
+			}
+			v := pickVictim(func(e gmsl.PDU) bool {
+				if !inAuth[e.EventID()] {
+					return false
+				}
+				for _, x := range a.state {
+					if x.ev != nil && x.id() == e.EventID() {
+						return true
+					}
+				}
+				return false
+			})
+			if v == nil {
+				continue
+			}
+			sk := sim.Pick(t, []string{"sig_corrupt", "sig_strip", "sig_wrong_key"})
+			raw := rm.sigFault(v, sk, "")
+			nv := rm.parse(raw)
+			if nv == nil || nv.EventID() != v.EventID() {
+				c.r.Probe("sig_fault_changed_identity")
+				continue
+			}
+			which := sim.Pick(t, []string{"state", "auth"})
+			list := a.state
+			if which == "auth" {
+				list = a.auth
+			}
+			for _, e := range list {
+				if e.ev != nil && e.id() == v.EventID() {
+					e.raw, e.ev, e.note = raw, nv, kind+":"+sk
+				}
+			}
+			if a.splitSig == nil {
+				a.splitSig = map[string]string{}
+			}
+			a.splitSig[v.EventID()] = which
+			a.faults[v.EventID()] = kind
+			touched[v.EventID()] = true
+			c.r.Logf("  fault sig_one_copy(%s): the %s-list copy of %s", sk, which, c.desc(v.EventID()))
 		case "auth_fail":
 			v := pickVictim(func(e gmsl.PDU) bool { return e.Type() != spec.MRoomCreate })
 			if v == nil {
@@ -598,6 +648,15 @@ func (c *c14) judgeState(op string, a *answer, model *stateVerdict, gotA, gotS [
 	if err != nil {
 		r.Violate("C14", op+"_spurious_error", a.neighbourFault(), "%s: response without non-state events or duplicate state keys refused: %v", op, err)
 	}
+	// every returned event has verified signatures: judged on the bytes that
+	// come back, whatever the event ID says
+	c.checkReturnedSignatures(op, a, gotA, gotS)
+	if len(a.splitSig) > 0 {
+		// one intact and one damaged copy under one event ID: whether the ID
+		// as a whole is dropped is not prescribed, so the lists are not compared
+		r.Probe("answer_with_one_damaged_copy_of_an_event_listed_twice")
+		return
+	}
 	if len(model.dropped) > 0 {
 		r.Probe("events_dropped")
 	}
@@ -695,6 +754,13 @@ func (c *c14) opSendJoin() {
 		r.Probe("off_contract_provider_answer_used")
 		return
 	}
+	if err == nil {
+		c.checkReturnedSignatures("sendjoin", a, c.pdusOf(res.GetAuthEvents()), c.pdusOf(res.GetStateEvents()))
+	}
+	if len(a.splitSig) > 0 {
+		r.Probe("answer_with_one_damaged_copy_of_an_event_listed_twice")
+		return
+	}
 	if !wantOK {
 		r.Probe("sendjoin_refused_" + why)
 		r.Nontriv = true
@@ -714,6 +780,32 @@ func (c *c14) opSendJoin() {
 	gotS := c.idsOf(res.GetStateEvents())
 	c.compareLists("sendjoin", "auth", gotA, model.auth, model, a)
 	c.compareLists("sendjoin", "state", gotS, model.state, model, a)
+}
+
+// checkReturnedSignatures: every event a response check hands back has
+// verified signatures, judged on the bytes that come back.
+func (c *c14) checkReturnedSignatures(op string, a *answer, lists ...[]gmsl.PDU) {
+	if c.ver.Fail != nil {
+		return
+	}
+	truth := &world.Verifier{L: c.ver.L}
+	for _, l := range lists {
+		for _, e := range l {
+			if verr := gmsl.VerifyEventSignatures(context.Background(), e, truth, uidFor); verr != nil {
+				c.r.Violate("C14", op+"_returns_unverified_event", a.faults[e.EventID()], "%s returned %s whose signatures do not verify: %v", op, c.desc(e.EventID()), verr)
+			}
+		}
+	}
+}
+
+func (c *c14) pdusOf(js gmsl.EventJSONs) []gmsl.PDU {
+	var out []gmsl.PDU
+	for _, j := range js {
+		if ev := c.rm.parse(j); ev != nil {
+			out = append(out, ev)
+		}
+	}
+	return out
 }
 
 func (c *c14) idsOf(js gmsl.EventJSONs) []string {
